@@ -266,6 +266,7 @@ def run(rep, F, tier, only=None, rule="R2.6"):
     if only is None or "polygon-composition" in only:
         polygon_composition(rep, F)
         polygon_witness(rep, F)
+        multipoint_witness(rep, F)
     if only is None:
         container_composition(rep, F)
     RULE = "R2.6"
@@ -656,6 +657,47 @@ def polygon_witness(rep, F):
                         " ".join(fmt(v) for v in ext), "; ".join(" ".join(fmt(v) for v in h) for h in holes) or "none", fmt(q), "/".join(sorted(gots)) or "no row", want), where=fn.loc())
                     return
     rep.ok(RULE, "witness:Polygon[%d witnesses; 0, 1 and 2 holes]" % total)
+
+
+def multipoint_witness(rep, F):
+    """MultiPoint::calculate_coordinate_position on multi points of 0..3 members (unrolled exactly): Inside exactly when the coordinate equals
+    SOME member (a multi point has no boundary), on every assignment of three grid positions and every query."""
+    try:
+        fn = F.impl_method(COORDPOS_T, r"multi_point::MultiPoint<T>$", None, "calculate_coordinate_position", crates=("geo",))
+    except KeyError as e:
+        rep.bad(RULE, "witness:MultiPoint:anchor", str(e))
+        return
+    W = [C(0, 0), C(1, 2), C(2, 1)]
+    total = 0
+    for n in range(4):
+        pts_t = ("call", "vec!", (("array", tuple(("adt", GT + "point::Point", "Point", (("opaque", "m%d" % i),)) for i in range(n))),))
+        mp_t = ("&", ("adt", GT + "multi_point::MultiPoint", "MultiPoint", (pts_t,)))
+        ex = Symex(F, loop_bound=n + 3, max_paths=5000, budget_s=30, concrete_iters=True, inline_crates=("geo", "geo_types"))
+        try:
+            paths = [p for p in ex.run(fn, args=[mp_t, ("arg", 2), ("arg", 3), ("arg", 4)]) if p.kind != "cut"]
+        except Unanalysable as e:
+            rep.bad(RULE, "witness:MultiPoint:unanalysable", "%d member(s): %s" % (n, e), where=fn.loc())
+            return
+        rets = [p for p in paths if p.kind == "ret"]
+        for ms in itertools.product(W, repeat=n):
+            for q in W + [C(5, 5)]:
+                env = {("opaque", "m%d" % i): ms[i] for i in range(n)}
+                env[("arg", 2)] = q
+                env[("deref", ("arg", 2))] = q
+                ev = Evaluator(F, env, dict(CALLS))
+                try:
+                    hit = ev.select_path(rets)
+                    gots = {position_of(ex, ev, h) for h in hit}
+                except NoModel as e:
+                    rep.bad(RULE, "witness:MultiPoint:non-abstractable", "a decision of MultiPoint::calculate_coordinate_position is not a coordinate comparison (%s)" % e, where=fn.loc())
+                    return
+                want = "Inside" if q in ms else "Outside"
+                total += 1
+                if gots != {want}:
+                    rep.bad(RULE, "witness:MultiPoint", "MULTIPOINT(%s): position of %s is %s in the path table, exact geometry gives %s" % (
+                        " ".join(fmt(m) for m in ms) or "EMPTY", fmt(q), "/".join(sorted(gots)) or "no row", want), where=fn.loc())
+                    return
+    rep.ok(RULE, "witness:MultiPoint[%d witnesses; 0..3 members]" % total)
 
 
 # ------------------------------------------------------------------ whole-ring tables (exact unrolling for rings of 4 and 5 coordinates)
